@@ -202,6 +202,24 @@ class Universe:
                         operator=rnd.choice([ModOperator.post_percent, ModOperator.post_mul, ModOperator.mod_add]),
                         aggregate_mode=rnd.choice(list(ModAggregateMode))))
                 ch.buffs[bid] = tpls
+            # skills that change the buff attributes of the modules on the ship (value: plain dependency of the
+            # boosted attributes; id: the service re-registers the boost when it changes)
+            self.buff_tweaks = []
+            for _ in range(p.get('buff_tweaks', 3)):
+                a, b = rnd.choice(BUFF_ATTRS)
+                if rnd.random() < 0.5:
+                    tgt, op = a, rnd.choice([ModOperator.mod_add, ModOperator.post_assign, ModOperator.mod_add])
+                else:
+                    tgt, op = b, rnd.choice([ModOperator.post_percent, ModOperator.mod_add, ModOperator.post_mul])
+                m = DogmaModifier(affectee_filter=rnd.choice([ModAffecteeFilter.domain, ModAffecteeFilter.domain_group]),
+                                  affectee_domain=ModDomain.ship, affectee_filter_extra_arg=None,
+                                  affectee_attr_id=tgt, operator=op, aggregate_mode=ModAggregateMode.stack,
+                                  affector_attr_id=SKILL_LEVEL)
+                if m.affectee_filter == ModAffecteeFilter.domain_group:
+                    m = DogmaModifier(affectee_filter=ModAffecteeFilter.domain_group, affectee_domain=ModDomain.ship,
+                                      affectee_filter_extra_arg=rnd.choice(self.groups), affectee_attr_id=tgt,
+                                      operator=op, aggregate_mode=ModAggregateMode.stack, affector_attr_id=SKILL_LEVEL)
+                self.buff_tweaks.append(ch.mkeffect(category_id=EffectCategoryId.passive, modifiers=(m,)))
         # types
         self.types = {}
         for st in self.skill_types:
@@ -256,6 +274,8 @@ class Universe:
 
     def _mktype(self, rnd, kind, tid):
         effs = rnd.sample(self.effects, rnd.randint(0, min(3, len(self.effects))))
+        if kind == 'skill' and getattr(self, 'buff_tweaks', None):
+            effs += rnd.sample(self.buff_tweaks, rnd.randint(1, 2))
         if kind in ('mh', 'mm', 'ml', 'drone', 'fighter') and rnd.random() < 0.7:
             effs.append(self.online)
         tgt_effs = [e for e in self.effects if e.category_id == EffectCategoryId.target]
